@@ -401,27 +401,6 @@ theorem exit_all_leOPT {st : St α D} (h : ExitState asn C cvrs winner st) :
       · exact hte.mono asn C cvrs winner h'
       · exact hI.fr.leOPT_of_leLB h'
 
-/-- some alternative order exists when there are at least two candidates -/
-theorem exists_alt (hC : C.candidates.Nodup) (hn : 2 ≤ C.candidates.length) :
-    ∃ π, Alt C.candidates winner π := by
-  obtain ⟨c, hc, hcw⟩ : ∃ c ∈ C.candidates, c ≠ winner := by
-    cases hcs : C.candidates with
-    | nil => rw [hcs] at hn; simp at hn
-    | cons a l =>
-      cases l with
-      | nil => rw [hcs] at hn; simp at hn
-      | cons b l' =>
-        by_cases ha : a = winner
-        · refine ⟨b, by simp, ?_⟩
-          intro hb
-          rw [hcs] at hC
-          have := (List.nodup_cons.1 hC).1
-          apply this
-          rw [ha, ← hb]; simp
-        · exact ⟨a, by simp, ha⟩
-  refine ⟨C.candidates.erase c ++ [c], ?_, C.candidates.erase c, c, rfl, hcw⟩
-  exact List.perm_append_comm.trans (List.perm_cons_erase hc).symm
-
 /-- **Main statement about the result.** An empty result comes with an alternative order that no true
 assertion contradicts. A non-empty result consists of true assertions of the family, excludes every
 alternative winner, and the difficulty of each returned assertion is below the largest difficulty of every
@@ -436,9 +415,9 @@ theorem compute_spec (hC : C.candidates.Nodup) (hn : 2 ≤ C.candidates.length) 
   · rw [hi] at hinit
     exact ⟨fun _ => hinit, fun hne => absurd h1 hne⟩
   · rw [hi] at hinit
-    exact ⟨fun _ => mainLoop_spec asn C cvrs winner hC fuel st0 none hm hinit.1, fun hne => absurd h1 hne⟩
+    exact ⟨fun _ => mainLoop_spec asn C cvrs winner hC hn fuel st0 _ hm hinit.1, fun hne => absurd h1 hne⟩
   · rw [hi] at hinit
-    have hE : ExitState asn C cvrs winner st := mainLoop_spec asn C cvrs winner hC fuel st0 (some st) hm hinit.1
+    have hE : ExitState asn C cvrs winner st := mainLoop_spec asn C cvrs winner hC hn fuel st0 _ hm hinit.1
     obtain ⟨p1, p2, p3⟩ := post_spec asn C cvrs winner hC hE hd
     have hopt := exit_all_leOPT asn C cvrs winner hE
     have hfin := exit_all_finite asn C cvrs winner hE
@@ -454,6 +433,49 @@ theorem compute_spec (hC : C.candidates.Nodup) (hn : 2 ≤ C.candidates.length) 
       rw [hb] at hb'; cases hb'
       rw [(core_fields hc).2.2.2.2.2.2, ← hest]
       exact hopt i hi'
+
+/-- the de-duplication loop raises no AttributeError when every frontier node carries an assertion -/
+theorem dedupe_ok (s : Store α D) : ∀ (ids : List Nat) (acc : List (Assertion α D)),
+    (∀ i ∈ ids, (s.get i).best ≠ none) → ∃ L, dedupe s ids acc = Res.ok L := by
+  intro ids
+  induction ids with
+  | nil => intro acc _; exact ⟨acc, rfl⟩
+  | cons i ids ih =>
+    intro acc h
+    cases hb : (s.get i).best with
+    | none => exact absurd hb (h i List.mem_cons_self)
+    | some a =>
+      rw [dedupe, hb]
+      exact ih _ (fun j hj => h j (List.mem_cons_of_mem _ hj))
+
+/-- **No exception.** The model never reaches one of its error exits: the frontier is never empty when
+`max` / `nodes[0]` are evaluated (ValueError), `rem_cands[0]` exists in every dive (IndexError), and every
+node of the final frontier carries an assertion (AttributeError). -/
+theorem compute_no_err (hC : C.candidates.Nodup) (hn : 2 ≤ C.candidates.length) (fuel : Nat) (e : Err) :
+    computeRaireAssertions asn C cvrs winner fuel ≠ Res.err e := by
+  intro h
+  have hinit := init_inv asn C cvrs winner hC hn
+  unfold computeRaireAssertions at h
+  simp only at h
+  split at h
+  · cases h
+  · rename_i st0 hi
+    rw [hi] at hinit
+    have hloop := mainLoop_spec asn C cvrs winner hC hn fuel st0 _ rfl hinit.1
+    split at h
+    · cases h
+    · rename_i e' hm
+      rw [hm] at hloop; exact hloop
+    · cases h
+    · rename_i st hm
+      rw [hm] at hloop
+      have hE : ExitState asn C cvrs winner st := hloop
+      have hfin := exit_all_finite asn C cvrs winner hE
+      obtain ⟨L, hL⟩ := dedupe_ok st.store st.fr [] (fun i hi' hb => by
+        obtain ⟨a, ha, _⟩ := node_assertion asn C cvrs winner hC (hE.1.ok i (hE.1.fr.inRange i hi')) (hfin i hi')
+        rw [ha] at hb; cases hb)
+      rw [hL] at h
+      cases h
 
 end Main
 end Shangrla.Raire
